@@ -2441,9 +2441,13 @@ def _expand(e, dom, cache):
                 # definition (finite sum), of which the lemma is a consequence
                 cache[key] = z3.BoolVal(True)
                 return cache[key]
-            # quantifier over floats (axioms): leave it
-            cache[key] = e
-            return e
+            # quantifier over the uninterpreted float sort (order axioms): dropped here and re-imposed on the
+            # finite universe of each candidate model by `small_scope` (instantiate-and-retry)
+            dropped = cache.setdefault("__dropped__", [])
+            if all(e.get_id() != d.get_id() for d in dropped):
+                dropped.append(e)
+            cache[key] = z3.BoolVal(True)
+            return cache[key]
         body = _expand(body, dom, cache)
         parts = []
         for tup in itertools.product(dom, repeat=nv):
@@ -2489,16 +2493,59 @@ def small_scope(o, scopes=(2, 3), timeout_ms=8000):
     _int_consts(neg, consts, set())
     for S in scopes:
         dom = list(range(-1, S + 2))
+        cache = {}
         try:
-            ex = _expand(neg, dom, {})
+            ex = _expand(neg, dom, cache)
         except Exception:
             return None
+        dropped = cache.get("__dropped__", [])
         s = z3.Solver()
         s.set("timeout", timeout_ms)
         s.add(ex)
         for c in consts.values():
             s.add(c >= -1, c <= S + 1)
         r = s.check()
+        rounds = 0
+        while r == z3.sat and dropped and rounds < 6:
+            # validate the dropped float-sorted axioms on the model's finite universe; add violated instances
+            m = s.model()
+            added = 0
+            for ax in dropped:
+                nv = ax.num_vars()
+                sorts = [ax.var_sort(i) for i in range(nv)]
+                unis = []
+                for so in sorts:
+                    u = m.get_universe(so) if so.kind() == z3.Z3_UNINTERPRETED_SORT else None
+                    unis.append(list(u) if u else [])
+                if any(not u for u in unis):
+                    continue
+                size = 1
+                for u in unis:
+                    size *= len(u)
+                if size > 700 or _t.time() - t0 > 25:
+                    added = -1      # universe too large to validate: give up (undecided, never a refutation)
+                    break
+                for tup in itertools.product(*unis):
+                    if _t.time() - t0 > 25:
+                        added = -1
+                        break
+                    inst = z3.substitute_vars(ax.body(), *reversed(tup))
+                    if not z3.is_true(m.eval(inst, model_completion=True)):
+                        s.add(inst)
+                        added += 1
+                        if added > 400:
+                            break
+                if added > 400 or added < 0:
+                    break
+            if added == 0:
+                break
+            if added < 0:
+                r = z3.unknown
+                break
+            rounds += 1
+            r = s.check()
+        if r == z3.sat and rounds >= 6:
+            r = z3.unknown
         if r == z3.sat:
             m = s.model()
             o.status = "refuted"
